@@ -257,6 +257,20 @@ def bounded(pb, interp, rng, tier):
                         break
             except Exception as e:
                 fail("_get_index_and_dt", "subset-order.raises", f"entries {what}", f"{type(e).__name__}: {str(e)[:80]}")
+        # the empty subset of entries: no validity interval, every time is outside
+        ev += 1
+        distinct.add("empty-subset")
+        try:
+            q0 = p[np.zeros(len(p), dtype=bool)]
+            if len(q0.intervals) != 0:
+                fail("intervals", "empty-subset.intervals", "p[all-False mask]", repr(q0.intervals)[:80])
+            try:
+                q0(Time(two[0]["tmid"], format="mjd"))
+                fail("__call__", "empty-subset.accepted", "p[all-False mask](t)", "no error")
+            except ValueError:
+                pass
+        except Exception as e:
+            fail("intervals", "empty-subset.raises", "p[all-False mask]", f"{type(e).__name__}: {str(e)[:80]}")
         # time_at at the ends of the validity range and for an array of phases
         t_lo = Time(two[0]["tmid"], format="mjd", precision=9) - 30 * u.min
         t_hi = Time(two[1]["tmid"], format="mjd", precision=9) + 30 * u.min
